@@ -685,15 +685,17 @@ Fixpoint run_conn (c : cfg) (x : ext) (fuel : nat) (n : N) (progs : list (list c
           match err with
           | Some e => [200%Z; perr_code e]
           | None =>
-              if should_close r then
-                enc_list enc_header (c_trailers (snd b)) ++ [201%Z]
-              else
-                let '(b', derr) := drain (reader_read c) remaining_upper (S (length (fst b) + remaining_upper (snd b))) b in
-                match derr with
-                | Some e => [200%Z; perr_code e]
-                | None => enc_list enc_header (c_trailers (snd b')) ++ [Z.of_nat (length (u_abs (c_unreader (snd b'))))]
-                          ++ run_conn c x fuel' (n + 1) (tl progs) (c_unreader (snd b'))
-                end
+              (* the rest of the body is read to its end: by Parser.__next__ before the next request, or
+                 (when the connection is to be closed) by the observer, so that trailers are seen *)
+              let '(b', derr) := drain (reader_read c) remaining_upper (S (length (fst b) + remaining_upper (snd b))) b in
+              match derr with
+              | Some e => [200%Z; perr_code e]
+              | None =>
+                  enc_list enc_header (c_trailers (snd b')) ++
+                  (if should_close r then [201%Z]
+                   else [Z.of_nat (length (u_abs (c_unreader (snd b'))))]
+                        ++ run_conn c x fuel' (n + 1) (tl progs) (c_unreader (snd b')))
+              end
           end
       end
   end.
